@@ -288,3 +288,31 @@ def explain(cfg, *args):
 def meta_reversed_witness():
     doc = '<html><head><meta content="text/html; charset=cp1251" http-equiv="Content-Type"></head></html>'
     return cu.detect_encoding(doc, 'utf-8')[1] == 'cp1251'
+
+
+# ---- the `encoding` option is about byte strings at render time, not about decoding the source -------------
+OPT_SOURCES = ['<p>caf\xe9 Ж ${1}</p>', '<?xml version="1.0"?>\n<p>caf\xe9 Ж</p>', 'plain \xe9 text']
+OPT_ENCODINGS = [None, 'latin-1', 'utf-16', 'ascii']
+
+
+def option_encoding(si: int, ei: int, cls: int) -> bool:
+    """
+    pre: 0 <= si < 3 and 0 <= ei < 4 and 0 <= cls < 2
+    post: _
+    """
+    # a bytes source without BOM / declaration / meta is decoded with the default encoding (utf-8) whatever
+    # the template's encoding option says, and renders like the same document given as str
+    from chameleon import PageTemplate, PageTextTemplate
+    from vlib.notrace import NoTracing
+    text = pick(OPT_SOURCES, si)
+    enc = pick(OPT_ENCODINGS, ei)
+    klass = PageTemplate if cls == 0 else PageTextTemplate
+    with NoTracing():
+        kw = {} if enc is None else {'encoding': enc}
+        try:
+            a = klass(text.encode('utf-8'), **kw)
+            b = klass(text, **kw)
+            ok = a.render() == b.render() and a.content_encoding in ('utf-8', None) and a.content_type == b.content_type
+        except Exception:
+            ok = False
+    return _res(ok)
